@@ -1,6 +1,7 @@
 package main
 
 import (
+	"fmt"
 	"strings"
 
 	"golang.org/x/tools/go/ssa"
@@ -79,6 +80,57 @@ func checkC25(r *Run) {
 	if n == 0 {
 		r.Fail("C25-R3", "asyncMessage.process call sites", "", "anchor-unresolved: none found")
 	}
+	// the concrete process methods are reachable only through that dispatch: no static call from anywhere,
+	// and every message type's Handle does nothing but queue the message for the gate
+	nProc, nHandle := 0, 0
+	procs := map[*ssa.Function]bool{}
+	for _, fn := range r.P.ModFns {
+		if strings.HasPrefix(FnName(fn), "daemon.") && fn.Name() == "process" && fn.Signature.Recv() != nil && fn.Signature.Params().Len() == 1 && typeShort(fn.Signature.Params().At(0).Type()) == "daemon.daemoner" {
+			procs[fn] = true
+			nProc++
+		}
+	}
+	for _, fn := range r.P.ModFns {
+		for _, b := range fn.Blocks {
+			for _, in := range b.Instrs {
+				if ci, ok := in.(ssa.CallInstruction); ok {
+					if cal := ci.Common().StaticCallee(); cal != nil && procs[cal] {
+						r.Check("C25-R3", FnName(cal)+" is called directly from "+FnName(fn), r.P.Pos(ci.Pos()), false, "bypasses the introduction gate of onMessageEvent: a peer that never introduced itself gets this message processed")
+					}
+				}
+			}
+		}
+	}
+	r.Check("C25-R3", "message process methods found (reachable only through the gated dispatch)", "", nProc >= 10, fmt.Sprint(nProc))
+	for _, fn := range r.P.ModFns {
+		if !strings.HasPrefix(FnName(fn), "daemon.") || fn.Name() != "Handle" || fn.Signature.Recv() == nil || fn.Signature.Params().Len() != 2 {
+			continue
+		}
+		nHandle++
+		ff := r.P.Facts(fn)
+		ok := true
+		nRec := 0
+		for _, b := range fn.Blocks {
+			for _, in := range b.Instrs {
+				ci, isCall := in.(ssa.CallInstruction)
+				if !isCall {
+					continue
+				}
+				switch nm := calleeName(ci.Common()); {
+				case nm == "iface:daemon.daemoner.recordMessageEvent":
+					nRec++
+					if ff.Term(ci.Common().Args[0]) != "$0" || ff.Term(ci.Common().Args[1]) != "$1" {
+						ok = false
+					}
+				case strings.HasPrefix(nm, "iface:daemon.daemoner."):
+					ok = false // any other daemon operation from Handle runs before the gate
+				}
+			}
+		}
+		r.Check("C25-R3", FnName(fn)+": only queues itself with its own context (recordMessageEvent(self, mc)); no daemon operation before the gate", r.P.Pos(fn.Pos()), ok && nRec == 1, "")
+		r.RequireOnSuccess("C25-R3", FnName(fn), req("queued for the gated dispatch", "ok(iface:daemon.daemoner.recordMessageEvent(*))"))
+	}
+	r.Check("C25-R3", "message Handle methods found", "", nHandle >= 10 && nHandle == nProc, fmt.Sprintf("%d handle / %d process", nHandle, nProc))
 	// R4
 	boundObligations(r, "C25-R4", "daemon.IntroductionMessage.Verify")
 	r.Min("C25-R4", 5)
